@@ -13,7 +13,7 @@ import numpy as np
 LEVEL = "proof"
 MANIFEST_ENTRY = {
     "category": "proof",
-    "text": "Lean 4 theorems (57, over the reals) about one executable model (generic numeric carrier, run at Float) of BOTH the torch port "
+    "text": "Lean 4 theorems (61, over the reals) about one executable model (generic numeric carrier, run at Float) of BOTH the torch port "
             "(radon_torch, get_fourier_filter_torch, iradon_torch) and the scikit-image reference (radon circle mode, _get_fourier_filter, "
             "iradon linear): the sampling coordinates of the two Radon algorithms coincide for every size >= 2, angle and pixel (grid_sample "
             "normalisation round trip, rotation about N//2), hence every sinogram sample agrees; the six Fourier filters coincide bin by bin "
@@ -32,7 +32,10 @@ MANIFEST_ENTRY = {
             "every even size incl. size%4==2, both reject every odd size >= 3, size 1 counterexample; the 180-degree projection exactly "
             "(pure flip for odd N, flip shifted by one bin and one row for even N, both implementations, with the even-size flip "
             "counterexample); geometry: output size (integer sqrt of N^2/2 for circle=False), diagonal padding, centre alignment of the "
-            "circle-to-square padding, rotation-axis pixel reads bin D//2, back-projection positions stay inside the detector bounds. The pre-fix conventions (reflected rotation, end-point cosine window, extrapolating "
+            "circle-to-square padding, rotation-axis pixel reads bin D//2, back-projection positions stay inside the detector bounds; explicit "
+            "output_size: agreement, linearity and shape for every output size. Inputs are drawn over memory-layout x dtype classes "
+            "(contiguous, transposed, batch-permuted, step-sliced, float64; theta float32/float64/strided) with a values-only predicate "
+            "(same result as the contiguous float32 call), and iradon's optional output_size is drawn (default, =N, <N, >N, 2N). The pre-fix conventions (reflected rotation, end-point cosine window, extrapolating "
             "interpolant) are kept as legacy definitions with their exact agreement domain and a counterexample each. The model is tied to "
             "the code on every run by Float correspondence with the real torch code and with the real scikit-image (1e-9), and the property "
             "predicate (agreement with scikit-image, batched = single, linearity, 0-degree column sums, forward projection inside "
@@ -51,12 +54,13 @@ TRUSTED = ["torch.nn.functional.grid_sample(bilinear, zeros, align_corners=True)
            "zero-padded bilinear interpolation (shared primitive `bilinear` of the model; validated by both correspondence streams)",
            "torch.fft / scipy.fft compute the defining DFT sum (Core/Dft.lean)",
            "scikit-image's radon/iradon/_get_fourier_filter as installed in /venv are the external oracle of the property"]
-ASSUMPTIONS = ["sizes 2..33 (scikit-image's radon itself raises for N=1); images float32 (radon_torch raises a dtype error for float64 "
-               "images because its sampling grid is float32 — not part of the property text, not checked)",
+ASSUMPTIONS = ["sizes 2..33 (scikit-image's radon itself raises for N=1); image values are float32-representable (given as float32 or float64 tensors)",
                "angle values are float32-representable so torch (float32) and scikit-image (float64) receive the same angles",
-               "iradon with circle=False: angle sets for which some pixel's detector position lies within 1e-4 of the detector end are "
+               "iradon: angle sets for which some unmasked pixel's detector position lies within 1e-4 of the detector end are "
                "re-drawn (the interpolant is discontinuous there: value vs 0; float32 and float64 positions may fall on different sides); cases with a re-drawn angle set are counted in the evidence",
-               "explicit output_size is not part of the property's quantifier; only the default output size is exercised",
+               "array inputs are drawn over memory-layout x dtype classes with unchanged logical values (contiguous, transposed, batch-permuted, "
+               "step-sliced, float64); torch has no negative strides; python lists / numpy arrays are not accepted by the port (tensor interface) and are not drawn",
+               "iradon's optional output_size is drawn (default, =N, <N, >N, 2N); the port has no interpolation / preserve_range arguments",
                "skimage's bilinear uses ceil() for the upper neighbour, the model floor()+1; they differ only at integer coordinates where "
                "the upper weight is 0 (exercised by the 0-degree exact stream)"]
 EXPLANATION = ("Theorems in Props/C07.lean are about Model/Radon.lean. Every run executes the model at Float against the real "
@@ -170,10 +174,50 @@ def _torch():
     return torch
 
 
-def t_radon(imgs, thetas):
+LAYOUTS = ["contig", "transposed", "permuted", "strided", "f64", "f64-transposed"]
+THETA_LAYOUTS = ["f32", "f64", "strided"]
+
+
+def to_layout(arr, layout):
+    """torch tensor with the logical values of `arr` (float32-representable) in a given memory layout / dtype class:
+    contig; transposed (dense non-contiguous: last two axes swapped in memory); permuted (batch axis last in memory, as
+    Tomography.sirt_recon leaves its volume); strided (every other element of a larger buffer, non-dense); f64 variants."""
     torch = _torch()
+    a = np.asarray(arr, dtype=np.float64 if layout.startswith("f64") else np.float32)
+    kind = layout[4:] if layout.startswith("f64-") else ("contig" if layout == "f64" else layout)
+    if kind == "permuted" and a.ndim < 3:
+        kind = "transposed"
+    if kind == "contig":
+        t = torch.tensor(a)
+    elif kind == "transposed":
+        t = torch.tensor(np.ascontiguousarray(np.swapaxes(a, -1, -2))).transpose(-1, -2)
+    elif kind == "permuted":
+        t = torch.tensor(np.ascontiguousarray(np.moveaxis(a, 0, -1))).permute(2, 0, 1)
+    elif kind == "strided":
+        big = torch.full(tuple(2 * d for d in a.shape), 7.0, dtype=torch.tensor(a).dtype)
+        idx = tuple(slice(None, None, 2) for _ in a.shape)
+        big[idx] = torch.tensor(a)
+        t = big[idx]
+    else:
+        raise ValueError(layout)
+    assert tuple(t.shape) == a.shape and bool((t == torch.tensor(a)).all())
+    return t
+
+
+def theta_tensor(thetas, layout="f32"):
+    torch = _torch()
+    if layout == "f64":
+        return torch.tensor(thetas, dtype=torch.float64)
+    if layout == "strided":
+        big = torch.full((2 * len(thetas),), 11.0, dtype=torch.float32)
+        big[::2] = torch.tensor(thetas, dtype=torch.float32)
+        return big[::2]
+    return torch.tensor(thetas, dtype=torch.float32)
+
+
+def t_radon(imgs, thetas, layout="contig", theta_layout="f32"):
     from quantem.tomography.radon.radon import radon_torch
-    out = radon_torch(torch.tensor(np.asarray(imgs, dtype=np.float32)), theta=torch.tensor(thetas, dtype=torch.float32))
+    out = radon_torch(to_layout(imgs, layout), theta=theta_tensor(thetas, theta_layout))
     return out.detach().cpu().numpy().astype(np.float64)
 
 
@@ -194,20 +238,19 @@ def s_filter(size, name):
     return np.asarray(_get_fourier_filter(size, name), dtype=np.float64).ravel()
 
 
-def t_iradon(sinos, thetas, filt, circle):
-    torch = _torch()
+def t_iradon(sinos, thetas, filt, circle, out_size=None, layout="contig", theta_layout="f32"):
     from quantem.tomography.radon.radon import iradon_torch
-    th = None if thetas is None else torch.tensor(thetas, dtype=torch.float32)
-    out = iradon_torch(torch.tensor(np.asarray(sinos, dtype=np.float32)), theta=th, filter_name=filt, circle=circle)
+    th = None if thetas is None else theta_tensor(thetas, theta_layout)
+    out = iradon_torch(to_layout(sinos, layout), theta=th, output_size=out_size, filter_name=filt, circle=circle)
     return out.detach().cpu().numpy().astype(np.float64)
 
 
-def s_iradon(sino, thetas, filt, circle):
+def s_iradon(sino, thetas, filt, circle, out_size=None):
     from skimage.transform import iradon
     th = None if thetas is None else np.asarray(thetas, dtype=np.float64)
     with warnings.catch_warnings():
         warnings.simplefilter("ignore")
-        return iradon(np.asarray(sino, dtype=np.float64).T.copy(), theta=th, filter_name=filt, circle=circle)
+        return iradon(np.asarray(sino, dtype=np.float64).T.copy(), theta=th, output_size=out_size, filter_name=filt, circle=circle)
 
 
 def err_name(e):
@@ -287,11 +330,11 @@ class Model:
             return r
         return unbits(r["ok"], (size,))
 
-    def iradon(self, alg, sino, thetas, filt, circle):
+    def iradon(self, alg, sino, thetas, filt, circle, out=None):
         A, N = sino.shape
         r = self.ask({"op": "iradon", "alg": alg, "n": N, "a": A, "sino": bits(sino),
                       "theta": None if thetas is None else bits(thetas),
-                      "filter": filt if filt is not None else "none", "circle": bool(circle)})
+                      "filter": filt if filt is not None else "none", "circle": bool(circle), "out": out})
         if "err" in r:
             return r
         m = int(r["size"])
@@ -313,21 +356,27 @@ def case_radon(ctx, model, case, with_model=True):
     """radon_torch vs skimage.radon vs model, + batched = single, + linearity, + theta=0 column sums"""
     N, kind, seeds, thetas = case["N"], case["img"], case["seeds"], case["thetas"]
     masked = case.get("masked", True)
+    layout, tlay = case.get("layout", "contig"), case.get("theta_layout", "f32")
     imgs = [make_image(kind, N, s, masked=masked) for s in seeds]
     B = len(imgs)
     ctx.count()
+    ctx.dist[f"radon:layout={layout}"] += 1
+    ctx.dist[f"radon:theta-layout={tlay}"] += 1
     ctx.dist[f"radon:N={N}"] += 1
     ctx.dist[f"radon:img={kind}"] += 1
     ctx.dist[f"radon:batch={B}"] += 1
     ctx.dist[f"radon:angles={len(thetas)}"] += 1
     ctx.dist[f"radon:premasked={masked}"] += 1
     if any(np.any(im) for im in imgs):
-        ctx.mark(("radon", N, len(thetas), kind, B))
-    # --- real torch, batched call
+        ctx.mark(("radon", N, len(thetas), kind, B, layout, tlay))
+    # --- real torch, batched call (B == 1: a 2-D tensor half of the time)
+    arr = np.stack(imgs) if (B > 1 or case.get("keepdim", False)) else imgs[0]
     try:
-        tb = t_radon(np.stack(imgs), thetas)          # [B, A, N] or [A, N] when B == 1
+        tb = t_radon(arr, thetas, layout, tlay)          # [B, A, N] or [A, N] when B == 1
     except Exception as e:  # noqa
-        ctx.pred_fail(f"radon-raises-{parity(N)}-size", f"radon_torch raised {err_name(e)}: {e}", case, observed=err_name(e), required="a sinogram")
+        key = (f"radon-raises-{parity(N)}-size" if layout == "contig" and tlay == "f32" else
+               ("radon-float64-image" if layout.startswith("f64") else f"radon-raises-layout-{layout}-theta-{tlay}"))
+        ctx.pred_fail(key, f"radon_torch raised {err_name(e)}: {str(e)[:160]}", case, observed=err_name(e), required="a sinogram")
         return
     if B == 1:
         tb = tb[None] if tb.ndim == 2 else tb
@@ -344,14 +393,16 @@ def case_radon(ctx, model, case, with_model=True):
         if d > TOL_PRED * scale(ref):
             ctx.pred_fail(f"radon-{parity(N)}-size", f"radon_torch differs from skimage.transform.radon(circle=True) by {d:.3g} "
                           f"(tolerance {TOL_PRED * scale(ref):.3g})", dict(case, image_index=b), observed=worst(tb[b], ref), required="agreement")
-        # (2) batched = per-image
-        if B > 1:
-            single = t_radon(img, thetas)
+        # (2) batched = per-image, and the result depends only on the values (not on memory layout / dtype class)
+        if B > 1 or layout != "contig" or tlay != "f32":
+            single = t_radon(img, thetas)                 # contiguous float32 2-D call
             db = maxdiff(tb[b], single)
-            ctx.stat_max("radon batched-vs-single rel", db / scale(single))
-            if db > TOL_BATCH * scale(single):
-                ctx.pred_fail("radon-batch", f"batched radon_torch differs from the per-image call by {db:.3g}", dict(case, image_index=b),
-                              observed=worst(tb[b], single), required="equal")
+            tolb = TOL_BATCH if not (layout.startswith("f64") or tlay == "f64") else TOL_PRED
+            ctx.stat_max("radon batched/layout-vs-single-contiguous rel", db / scale(single))
+            if db > tolb * scale(single):
+                key = "radon-batch" if layout == "contig" and tlay == "f32" else "radon-layout"
+                ctx.pred_fail(key, f"radon_torch on a {layout} input (batch {B}, theta {tlay}) differs from the per-image call on "
+                              f"contiguous float32 tensors by {db:.3g}", dict(case, image_index=b), observed=worst(tb[b], single), required="equal")
         # (3) correspondence with the model (first image only: cost)
         if with_model and model.drv is not None and b == 0:
             mt = model.radon("torch", img.astype(np.float64), thetas)
@@ -385,14 +436,17 @@ def case_proj0(ctx, model, case):
     """theta = 0: the projection equals the column sums of the disc-masked image (integer images, tolerance 2e-5)"""
     N, seed, masked = case["N"], case["seed"], case.get("masked", False)
     img = make_image(case.get("img", "int"), N, seed, masked=masked)
+    layout = case.get("layout", "contig")
     ctx.count()
     ctx.dist[f"proj0:N={N}"] += 1
-    ctx.mark(("proj0", N, masked))
+    ctx.dist[f"proj0:layout={layout}"] += 1
+    ctx.mark(("proj0", N, masked, layout))
     want = (img.astype(np.float64) * disc(N)).sum(axis=0)
     try:
-        got = t_radon(img, [0.0])
+        got = t_radon(img, [0.0], layout)
     except Exception as e:  # noqa
-        ctx.pred_fail("radon-proj0-colsum", f"radon_torch raised {err_name(e)}", case, observed=err_name(e), required=want.tolist())
+        ctx.pred_fail("radon-float64-image" if layout.startswith("f64") else "radon-proj0-colsum",
+                      f"radon_torch raised {err_name(e)}: {str(e)[:120]}", case, observed=err_name(e), required=want.tolist())
         return
     got = got.reshape(-1)
     # not bit-exact: grid_sample's [-1,1] normalisation round trip is done in float32 (15 * 2/15 ... -> 12.999999)
@@ -462,27 +516,34 @@ def case_filter(ctx, model, case):
     ctx.sample({"stream": "filter", **case}, limit=5)
 
 
-def edge_distance(N, A_thetas, circle):
-    """smallest distance of any back-projected detector position to the detector ends (circle=False only)"""
-    if circle:
-        return float("inf")
-    m = int(np.floor(np.sqrt(N ** 2 / 2.0)))
+def edge_distance(N, A_thetas, circle, out=None):
+    """smallest distance of any back-projected (unmasked) detector position to the two detector ends, where the interpolant
+    jumps between the end sample and 0 (float32 and float64 positions may fall on different sides)"""
+    m = out if out is not None else (N if circle else int(np.floor(np.sqrt(N ** 2 / 2.0))))
+    D = int(math.ceil(math.sqrt(2) * N)) if circle else N
     r = m // 2
-    xs = np.arange(m) - r
+    xs = (np.arange(m) - r).astype(np.float64)
+    keep = (xs[None, :] ** 2 + xs[:, None] ** 2 <= r ** 2) if circle else np.ones((m, m), dtype=bool)
+    if not keep.any():
+        return float("inf")
     best = float("inf")
     for th in A_thetas:
         a = math.radians(th)
-        t = xs[None, :] * math.cos(a) - xs[:, None] * math.sin(a) + N // 2
-        best = min(best, float(np.min(np.abs(t))), float(np.min(np.abs(t - (N - 1)))))
+        t = (xs[None, :] * math.cos(a) - xs[:, None] * math.sin(a) + D // 2)[keep]
+        best = min(best, float(np.min(np.abs(t))), float(np.min(np.abs(t - (D - 1)))))
     return best
 
 
 def case_iradon(ctx, model, case, with_model=True):
     N, A, kind, seeds = case["N"], case["A"], case["sino"], case["seeds"]
     thetas, filt, circle = case["thetas"], case["filter"], case["circle"]
+    out, layout, tlay = case.get("out"), case.get("layout", "contig"), case.get("theta_layout", "f32")
     sinos = [make_sino(kind, A, N, s, thetas) for s in seeds]
     B = len(sinos)
     ctx.count()
+    ctx.dist[f"iradon:output_size={'default' if out is None else ('=N' if out == N else ('<N' if out < N else '>N'))}"] += 1
+    ctx.dist[f"iradon:layout={layout}"] += 1
+    ctx.dist[f"iradon:theta-layout={tlay}"] += 1
     ctx.dist[f"iradon:N={N}"] += 1
     ctx.dist[f"iradon:sino={kind}"] += 1
     ctx.dist[f"iradon:filter={filt}"] += 1
@@ -491,18 +552,20 @@ def case_iradon(ctx, model, case, with_model=True):
     ctx.dist[f"iradon:angles={A}"] += 1
     ctx.dist[f"iradon:theta={'default' if thetas is None else 'given'}"] += 1
     if any(np.any(s) for s in sinos):
-        ctx.mark(("iradon", N, A, kind, filt, circle, B, thetas is None))
-    suffix = ("" if circle else "-nocircle")
+        ctx.mark(("iradon", N, A, kind, filt, circle, B, thetas is None, None if out is None else (out > N) - (out < N), layout, tlay))
+    suffix = ("" if circle else "-nocircle") + ("" if out is None else "-output-size")
     key = "iradon-default-theta" if thetas is None else f"iradon-{parity(N)}-size{suffix}"
+    arr = np.stack(sinos) if (B > 1 or case.get("keepdim", False)) else sinos[0]
     try:
-        tb = t_iradon(np.stack(sinos), thetas, filt, circle)
+        tb = t_iradon(arr, thetas, filt, circle, out, layout, "f32" if thetas is None else tlay)
     except Exception as e:  # noqa
-        ctx.pred_fail(key, f"iradon_torch raised {err_name(e)}: {e}", case, observed=err_name(e), required="a reconstruction")
+        k2 = key if layout == "contig" and tlay == "f32" else f"iradon-raises-layout-{layout}-theta-{tlay}"
+        ctx.pred_fail(k2, f"iradon_torch raised {err_name(e)}: {str(e)[:160]}", case, observed=err_name(e), required="a reconstruction")
         return
     if B == 1 and tb.ndim == 2:
         tb = tb[None]
     for b, sino in enumerate(sinos):
-        ref = s_iradon(sino, thetas, filt, circle)
+        ref = s_iradon(sino, thetas, filt, circle, out)
         if tb[b].shape != ref.shape:
             ctx.pred_fail("iradon-shape", "iradon_torch output shape", case, observed=list(tb[b].shape), required=list(ref.shape))
             return
@@ -511,16 +574,18 @@ def case_iradon(ctx, model, case, with_model=True):
         if d > TOL_PRED * scale(ref):
             ctx.pred_fail(key, f"iradon_torch(filter={filt!r}, circle={circle}) differs from skimage.transform.iradon by {d:.3g} "
                           f"(tolerance {TOL_PRED * scale(ref):.3g})", dict(case, sino_index=b), observed=worst(tb[b], ref), required="agreement")
-        if B > 1:
-            single = t_iradon(sino, thetas, filt, circle)
+        if B > 1 or layout != "contig" or tlay != "f32":
+            single = t_iradon(sino, thetas, filt, circle, out)      # contiguous float32 2-D call
             db = maxdiff(tb[b], single)
-            ctx.stat_max("iradon batched-vs-single rel", db / scale(single))
-            if db > TOL_BATCH * scale(single):
-                ctx.pred_fail("iradon-batch", f"batched iradon_torch differs from the per-sinogram call by {db:.3g}", dict(case, sino_index=b),
-                              observed=worst(tb[b], single), required="equal")
+            tolb = TOL_BATCH if not (layout.startswith("f64") or tlay == "f64") else TOL_PRED
+            ctx.stat_max("iradon batched/layout-vs-single-contiguous rel", db / scale(single))
+            if db > tolb * scale(single):
+                k2 = "iradon-batch" if layout == "contig" and tlay == "f32" else "iradon-layout"
+                ctx.pred_fail(k2, f"iradon_torch on a {layout} input (batch {B}, theta {tlay}) differs from the per-sinogram call on "
+                              f"contiguous float32 tensors by {db:.3g}", dict(case, sino_index=b), observed=worst(tb[b], single), required="equal")
         if with_model and model.drv is not None and b == 0:
-            mt = model.iradon("torch", sino.astype(np.float64), thetas, filt, circle)
-            ms = model.iradon("sk", sino.astype(np.float64), thetas, filt, circle)
+            mt = model.iradon("torch", sino.astype(np.float64), thetas, filt, circle, out)
+            ms = model.iradon("sk", sino.astype(np.float64), thetas, filt, circle, out)
             ctx.dist["iradon:model-compared"] += 1
             if isinstance(mt, dict) or isinstance(ms, dict):
                 ctx.disagree("iradon-error", case, [str(mt)[:80], str(ms)[:80]], "arrays")
@@ -535,7 +600,7 @@ def case_iradon(ctx, model, case, with_model=True):
     if B >= 2:
         a, c = case.get("coef", [2.0, -0.5])
         comb = (np.float32(a) * sinos[0] + np.float32(c) * sinos[1]).astype(np.float32)
-        lhs = t_iradon(comb, thetas, filt, circle)
+        lhs = t_iradon(comb, thetas, filt, circle, out)
         rhs = a * tb[0] + c * tb[1]
         dl = maxdiff(lhs, rhs)
         sc = max(scale(tb[0]) * abs(a), scale(tb[1]) * abs(c), 1.0)
@@ -587,7 +652,7 @@ def case_sirt(ctx, model, case):
         class _Vol:
             pass
         v = _Vol()
-        v._obj = torch.tensor(vol)
+        v._obj = to_layout(vol, case.get("layout", "contig"))
         v.obj = v._obj
         fake = types.SimpleNamespace(dataset=types.SimpleNamespace(tilt_angles=angles), volume_obj=v, device=torch.device("cpu"))
         pf, _loss = TomographyConv._sirt_run_epoch(fake, torch.tensor(tilt), torch.zeros(D, len(thetas), N), angles,
@@ -621,6 +686,8 @@ def gen_radon_case(rng, model_cost=True):
     B = rng.weighted([(1, 4), (2, 4), (3, 2)])
     return {"kind": "radon", "N": N, "img": rng.choice(IMG_KINDS), "seeds": [rng.next() % (1 << 30) for _ in range(B)],
             "thetas": make_thetas(rng, A), "masked": rng.chance(0.5),
+            "layout": rng.weighted([("contig", 4), ("transposed", 2), ("permuted", 2), ("strided", 1), ("f64", 1), ("f64-transposed", 1)]),
+            "theta_layout": rng.weighted([("f32", 6), ("f64", 1), ("strided", 1)]), "keepdim": rng.chance(0.5),
             "coef": [float(rng.choice([2.0, -1.0, 0.5, 3.0])), float(rng.choice([-0.5, 1.0, 4.0, -2.0]))]}
 
 
@@ -632,20 +699,30 @@ def gen_iradon_case(ctx, rng, model_cost=True):
     B = rng.weighted([(1, 5), (2, 3), (3, 1)])
     circle = rng.chance(0.7)
     default_theta = rng.chance(0.12)
+    # optional argument of the skimage-compatible interface: explicit output_size (smaller, equal, larger than the width)
+    out = rng.weighted([(None, 5), (N, 1), (max(1, N - rng.randint(1, 6)), 2), (N + rng.randint(1, 8), 2), (2 * N, 1)])
     rejected = False
-    for _ in range(20):
-        thetas = None if default_theta else make_thetas(rng, A)
+    thetas = None
+    for k in range(40):
+        thetas = None if default_theta else (make_thetas(rng, A) if k < 20 else [float(np.float32(rng.uniform(1.0, 179.0))) for _ in range(A)])
         eff = thetas if thetas is not None else list(np.arange(A) * 180.0 / A)
-        if edge_distance(N, eff, circle) > 1e-4:
+        if edge_distance(N, eff, circle, out) > 1e-4:
             break
         rejected = True
+        if default_theta:                      # the default angle set cannot be re-drawn: fall back to the default geometry, then to given angles
+            if out is not None or not circle:
+                out, circle = None, True
+            else:
+                default_theta = False
     else:
-        circle = True   # e.g. N = 2: the single pixel always sits on the detector end; use circle mode instead
-        ctx.dist["iradon:nocircle-case-switched-to-circle"] += 1
+        out, circle = None, True
+        ctx.dist["iradon:case-switched-to-default-circle"] += 1
     if rejected:
         ctx.dist["iradon:cases-with-angle-set-redrawn-near-detector-end"] += 1
     return {"kind": "iradon", "N": N, "A": A, "sino": rng.choice(SINO_KINDS), "seeds": [rng.next() % (1 << 30) for _ in range(B)],
-            "thetas": thetas, "filter": rng.choice(FILTERS), "circle": circle,
+            "thetas": thetas, "filter": rng.choice(FILTERS), "circle": circle, "out": out,
+            "layout": rng.weighted([("contig", 5), ("transposed", 2), ("permuted", 1), ("strided", 1), ("f64", 1), ("f64-transposed", 1)]),
+            "theta_layout": rng.weighted([("f32", 6), ("f64", 1), ("strided", 1)]), "keepdim": rng.chance(0.5),
             "coef": [float(rng.choice([2.0, -1.0, 0.5, 3.0])), float(rng.choice([-0.5, 1.0, 4.0, -2.0]))]}
 
 
@@ -698,6 +775,17 @@ WITNESSES = [
     # no circle-to-square padding: even N (detector end) and N in 23..32 (padded filter size 64 instead of 128)
     {"kind": "iradon", "N": 8, "A": 2, "sino": "edge", "seeds": [3], "thetas": [30.0, 75.0], "filter": None, "circle": True},
     {"kind": "iradon", "N": 25, "A": 2, "sino": "random", "seeds": [3], "thetas": [20.0, 110.0], "filter": "hann", "circle": True},
+    # memory layout x dtype classes: transposed / batch-permuted views of images that are non-zero outside the disc, float64
+    {"kind": "proj0", "N": 9, "seed": 11, "img": "int", "masked": False, "layout": "transposed"},
+    {"kind": "proj0", "N": 8, "seed": 12, "img": "int", "masked": False, "layout": "f64-transposed"},
+    {"kind": "radon", "N": 12, "img": "random", "seeds": [21, 22], "thetas": [0.0, 33.0, 90.0], "masked": False, "layout": "permuted"},
+    {"kind": "radon", "N": 11, "img": "random", "seeds": [23], "thetas": [14.0, 120.0], "masked": False, "layout": "transposed", "theta_layout": "f64"},
+    {"kind": "sirt", "N": 10, "D": 3, "img": "random", "seeds": [31, 32, 33], "thetas": [20.0, 75.0, 140.0], "filter": "hann", "layout": "permuted"},
+    # explicit output_size (circle mask radius = output_size // 2, grid centre output_size // 2)
+    {"kind": "iradon", "N": 16, "A": 3, "sino": "random", "seeds": [41], "thetas": [21.5, 68.0, 128.75], "filter": "ramp", "circle": True, "out": 11},
+    {"kind": "iradon", "N": 16, "A": 3, "sino": "random", "seeds": [42], "thetas": [21.5, 68.0, 128.75], "filter": None, "circle": True, "out": 22},
+    {"kind": "iradon", "N": 10, "A": 2, "sino": "random", "seeds": [43], "thetas": [33.0, 101.5], "filter": "hann", "circle": False, "out": 16,
+     "layout": "transposed"},
     # default angle set
     {"kind": "iradon", "N": 9, "A": 4, "sino": "random", "seeds": [5], "thetas": None, "filter": "ramp", "circle": True},
 ]
@@ -714,7 +802,8 @@ def run(ctx):
         for i in range(ctx.n(40, 300)):
             rng = ctx.rng.fork(1000 + i)
             dispatch(ctx, model, {"kind": "proj0", "N": gen_size(rng), "seed": rng.next() % (1 << 30),
-                                  "img": rng.choice(["int", "delta", "rim", "disc"]), "masked": rng.chance(0.4)})
+                                  "img": rng.choice(["int", "delta", "rim", "disc"]), "masked": rng.chance(0.4),
+                                  "layout": rng.choice(["contig", "transposed", "strided", "f64", "f64-transposed"])})
         # --- filters (all six names x sizes)
         for i in range(ctx.n(120, 800)):
             rng = ctx.rng.fork(2000 + i)
@@ -742,6 +831,7 @@ def run(ctx):
             rng = ctx.rng.fork(8000 + i)
             D = rng.randint(1, 3)
             dispatch(ctx, model, {"kind": "sirt", "N": gen_size(rng), "D": D, "img": rng.choice(IMG_KINDS),
+                                  "layout": rng.choice(["contig", "permuted", "transposed"]),
                                   "seeds": [rng.next() % (1 << 30) for _ in range(D)], "thetas": make_thetas(rng, rng.randint(1, 6)),
                                   "filter": rng.choice(FILTERS[:5])})
         # --- malformed
